@@ -551,6 +551,80 @@ fn sec_delay(s: &mut Session, cx: &Ctx, rng: &mut Rng, n_cases: usize, n_long: u
 	}
 }
 
+/// delay with effects in the feedback loop: echo k is the impulse passed k times through the loop
+/// effects and the feedback gain.  The reference is built from the REAL loop effects run on their own
+/// (fresh instance per pass), so that only the delay's routing is under test here.
+fn sec_delay_fx(s: &mut Session, cx: &Ctx, rng: &mut Rng, n: usize) {
+	for i in 0..n {
+		let sr = gen_sr(rng);
+		let dd = rng.range(40, 600) as usize;
+		let time = Duration::from_nanos((dd as u64 * 1_000_000_000 + 250_000_000) / sr as u64 + 1);
+		if exact_frames(time, sr) != dd {
+			continue;
+		}
+		let fb = (-12.0 + rng.unit_f64() * 11.0) as f32;
+		let fc = 300.0 * (20.0f64).powf(rng.unit_f64()).min(sr as f64 * 0.4 / 300.0);
+		let fx: Vec<Desc> = match i % 4 {
+			0 => vec![Filter { mode: 0, cutoff: fc, res: 0.1, mix: 1.0 }],
+			1 => vec![Vol(-3.0), Pan(0.3)],
+			2 => vec![Filter { mode: 2, cutoff: fc, res: 0.3, mix: 1.0 }, Vol(2.0)],
+			_ => vec![Eq { kind: 0, freq: fc, gain: 6.0, q: 1.0 }],
+		};
+		let echoes = 4usize;
+		let n_frames = dd * (echoes + 1);
+		let mut input = vec![Frame::ZERO; n_frames];
+		// a short burst, well inside one delay period
+		for f in input.iter_mut().take(8) {
+			*f = Frame::new(unit32(rng), unit32(rng));
+		}
+		let d = Delay { time, fb, mix: 1.0, fx: fx.clone() };
+		let desc = format!("{:?} @ {} Hz", d, sr);
+		let Some(out) = run_ok(s, cx, &d, sr, &input) else { continue };
+		s.eval_only("mon_delay_feedback_effects");
+		// reference: pass the burst (padded to one period) through the loop effects, then the gain, k times
+		let g = amp64(fb);
+		let mut cur: Vec<Frame> = input[..n_frames].to_vec();
+		let mut expect = vec![(0.0f64, 0.0f64); n_frames];
+		let mut ok = true;
+		for k in 1..=echoes {
+			// one trip: loop effects (fresh state: they only ever see this trip's signal, delayed), gain, delay by dd
+			for e in &fx {
+				match run_effect(cx, e, sr, &cur) {
+					Outcome::Ok(v) => cur = v,
+					_ => ok = false,
+				}
+			}
+			let mut next = vec![Frame::ZERO; n_frames];
+			for j in 0..n_frames - dd {
+				next[j + dd] = Frame::new((cur[j].left as f64 * g) as f32, (cur[j].right as f64 * g) as f32);
+			}
+			cur = next;
+			for j in 0..n_frames {
+				expect[j].0 += cur[j].left as f64;
+				expect[j].1 += cur[j].right as f64;
+			}
+			let _ = k;
+		}
+		if !ok {
+			continue;
+		}
+		let peak = expect.iter().map(|p| p.0.abs().max(p.1.abs())).fold(1e-9, f64::max);
+		for j in 0..n_frames {
+			let (el, er) = ((out[j].left as f64 - expect[j].0).abs(), (out[j].right as f64 - expect[j].1).abs());
+			if !(el <= 1e-4 * peak && er <= 1e-4 * peak) {
+				s.fail(desc.clone(), format!("frame {j} (delay period {}): wet output ({}, {}), but the sum of the echoes g^k FX^k(input) delayed by k*{dd} frames is ({:.8}, {:.8}) (peak {peak:.4})", j / dd, out[j].left, out[j].right, expect[j].0, expect[j].1), None);
+				break;
+			}
+		}
+		if j_first_nonzero(&out) < dd {
+			s.fail(desc.clone(), format!("wet output before the first delay period has elapsed: frame {}", j_first_nonzero(&out)), None);
+		}
+	}
+}
+fn j_first_nonzero(v: &[Frame]) -> usize {
+	v.iter().position(|f| f.left != 0.0 || f.right != 0.0).unwrap_or(v.len())
+}
+
 // ------------------------------------------------------------------ sample traces against the C13 effect models
 
 fn emit_trace(s: &mut Session, cx: &Ctx, kind: &str, d: &Desc, sr: u32, input: &[Frame]) {
@@ -1246,6 +1320,7 @@ pub fn run(args: &Args) {
 	sec_panning(&mut s, &cx, &mut rng, 40 * big);
 	sec_distortion(&mut s, &cx, &mut rng, 60 * big);
 	sec_delay(&mut s, &cx, &mut rng, 30 * big, 300 * big);
+	sec_delay_fx(&mut s, &cx, &mut rng, 60 * big);
 	sec_traces(&mut s, &cx, &mut rng, 6 * big);
 	sec_filter_response(&mut s, &cx, &mut rng, 400 * big, 100 * big);
 	sec_eq_response(&mut s, &cx, &mut rng, 300 * big);
